@@ -428,6 +428,8 @@ class Ctx:
             print("VIOLATION property=%s replay=%s%s" % (self.pid, v["replay"], " no-failing-input-found" if v["no_input"] else ""))
         if self.violations:
             return 1
+        if getattr(self, "framework_error", False):
+            return 2
         print("OK property=%s tier=%s evaluations=%d distinct_nontrivial=%d obligations=%d discharged=%d wall=%.1fs" % (
             self.pid, self.tier, cov["evaluations"], cov["distinct_nontrivial"], cov["obligations"], cov["discharged"], wall))
         return 0
@@ -531,8 +533,8 @@ class Model:
             ensure_coq_makefile()
             # dependencies of Extract.v: everything it Requires from ErgV must be built
             txt = open(src).read()
-            deps = re.findall(r"ErgV\.([A-Za-z0-9_.]+)", txt)
-            targets = sorted(set(dep.replace(".", "/") + ".vo" for dep in deps))
+            rel = os.path.relpath(src, COQ)
+            targets = sorted(f[:-2] + ".vo" for f in coq_closure([rel]) if f != rel)
             p = sh(["timeout", "1500", "make", "-j16"] + targets, cwd=COQ)
             if p.returncode != 0:
                 raise FrameworkError("model %s does not build: %s" % (theme, (p.stderr + p.stdout)[-3000:]))
@@ -600,6 +602,7 @@ def main(argv):
     except FrameworkError as e:
         print("FRAMEWORK-ERROR property=%s: %s" % (a.pid, e))
         ctx.notes.append("framework error: %s" % e)
+        ctx.framework_error = True
         ctx.finish()
         return 2
     return ctx.finish()
